@@ -174,6 +174,22 @@ func (p c01) Gen(r *simhook.Rand, tier string, idx int) harness.Scenario {
 		// still empty may execute after a later request of the same connection, which C04 (not C01) judges
 		sc.Conns = append(sc.Conns, cs)
 	}
+	if r.Chance(1, 14) {
+		// class "deep-queue": one node holds its replies back for a while (a slow node) while a very wide MGET plus the
+		// other pipelines put more requests in flight to it than the 1024-entry queues of a backend connection hold.
+		// When it answers again, every reply must still reach its own request.
+		sc.Class = "deep-queue"
+		sc.Env.Masters = 1
+		n := 1030 + r.Intn(300)
+		a := world.Bins("MGET")
+		for i := 0; i < n; i++ {
+			a = append(a, world.Bin(fmt.Sprintf("{dq}%d", i)))
+		}
+		sc.Conns = append([]ConnScript{{Name: "dq", Reqs: []world.Request{{Args: a}}}}, sc.Conns...)
+		sc.Faults = append(sc.Faults, Fault{Kind: "stall", Node: 0, AfterSend: 0}, Fault{Kind: "unstall", Node: 0, AfterSend: n*14 + r.Intn(8000)}) // ~11 scheduler steps per MGET child: the queues are full by then
+		sc.IdleFaults = true
+		return sc
+	}
 	if r.Chance(1, 5) {
 		// class "migration": slots of the connections' keys migrate while the pipelines run, so that requests are
 		// answered ASK/MOVED and resent.  The order in which redirected requests execute is C04's subject; here each
